@@ -14,6 +14,7 @@ func init() { Registry["C08"] = c08 }
 
 func c08(r *Report) {
 	defer c08Seed5(r)
+	defer c08Seed6(r)
 	p := r.P
 	defer c08Audit4(r)
 	const dag = "network/dag"
@@ -390,7 +391,11 @@ func c08NoSharedData(r *Report) {
 
 // c08ClockMonotone: the in-memory highest Lamport clock equals the maximum over the stored set: admission only ever
 // raises it (compare-and-swap behind `v < clock`); the only absolute write is the reload from storage.
-func c08ClockMonotone(r *Report) {
+func c08ClockMonotone(r *Report) { clockMonotoneAs(r, "C08.clock") }
+
+// clockMonotoneAs: the same obligations under another property's id prefix (C07: the clock a node advertises decides which
+// page a far-behind peer asks for; a clock that can go DOWN makes the peer ask for the same undecodable range for ever).
+func clockMonotoneAs(r *Report, pre string) {
 	p := r.P
 	isHigh := func(cc *ssa.CallCommon) bool {
 		return len(cc.Args) > 0 && FieldV("state", "lamportClockHigh").M(&ssa.UnOp{Op: token.MUL, X: cc.Args[0]}) || len(cc.Args) > 0 && FieldPathEnds(&ssa.UnOp{Op: token.MUL, X: cc.Args[0]}, "lamportClockHigh")
@@ -403,7 +408,7 @@ func c08ClockMonotone(r *Report) {
 		f := cc.StaticCallee()
 		return f != nil && f.Name() == "CompareAndSwap" && f.Pkg != nil && f.Pkg.Pkg.Path() == "sync/atomic" && isHigh(cc)
 	}}
-	r.Own(OwnSpec{ID: "C08.clock.absolute-write-only-on-reload", Op: "overwrite the highest Lamport clock (Store)", Sites: p.CallSites(store, true), Min: 1,
+	r.Own(OwnSpec{ID: pre+".absolute-write-only-on-reload", Op: "overwrite the highest Lamport clock (Store)", Sites: p.CallSites(store, true), Min: 1,
 		Owners: map[string]string{"(*network/dag.state).loadState": "reload from storage (start-up and rollback)"}})
 	us := p.Func("network/dag", "state", "updateState")
 	load := CallV(Callee{Desc: "lamportClockHigh.Load", M: func(cc *ssa.CallCommon) bool {
@@ -411,10 +416,10 @@ func c08ClockMonotone(r *Report) {
 		return f != nil && f.Name() == "Load" && f.Pkg != nil && f.Pkg.Pkg.Path() == "sync/atomic" && isHigh(cc)
 	}}, -1)
 	clock := CallV(Fn("network/dag", "Transaction", "Clock"), -1)
-	r.Gate(Gate{ID: "C08.clock.raised-only", Fn: us, Effect: CallEffect(cas), Check: CmpCheck("loaded value < transaction clock", token.LSS, load, clock, true)})
-	r.ArgIs("C08.clock.cas-from-loaded", us, cas, 0, load, 1)
-	r.ArgIs("C08.clock.cas-to-tx-clock", us, cas, 1, clock, 1)
-	r.Own(OwnSpec{ID: "C08.clock.raise-only-in-updateState", Op: "raise the highest Lamport clock (CompareAndSwap)", Sites: p.CallSites(cas, true), Min: 1,
+	r.Gate(Gate{ID: pre+".raised-only", Fn: us, Effect: CallEffect(cas), Check: CmpCheck("loaded value < transaction clock", token.LSS, load, clock, true)})
+	r.ArgIs(pre+".cas-from-loaded", us, cas, 0, load, 1)
+	r.ArgIs(pre+".cas-to-tx-clock", us, cas, 1, clock, 1)
+	r.Own(OwnSpec{ID: pre+".raise-only-in-updateState", Op: "raise the highest Lamport clock (CompareAndSwap)", Sites: p.CallSites(cas, true), Min: 1,
 		Owners: map[string]string{"(*network/dag.state).updateState": "admission of a transaction"}})
 }
 
